@@ -81,6 +81,8 @@ KINDS = (
     ("function now a builtin type's method descriptor", CallTraceRow("builtins", "str.upper", "{}", None, None), False),
     ("module removed whose name is a textual prefix of the live module's", CallTraceRow("vfix.func", "f", "{}", None, None), False),
     ("method now a custom non-data descriptor", CallTraceRow(M, "WithLazy.lazy", "{}", None, None), False),
+    ("function now a functools.partial object", CallTraceRow(M, "PARTIAL", "{}", None, None), False),
+    ("function now an instance with __call__", CallTraceRow(M, "CALLABLE_OBJ", "{}", None, None), False),
     ("element class removed inside a generic",
      CallTraceRow(M, "mod_func", json.dumps({"a": {"module": "typing", "qualname": "List", "elem_types": [{"module": "vfix.classes", "qualname": "Gone"}]}}), None, None), False),
 )
@@ -136,6 +138,38 @@ def stale_body(t, verbose, n_rows=3, kinds=None, via_main=False):
     return check(True)
 
 
+def apply_nothing_body(t, verbose):
+    """`monkeytype apply <module>` when nothing decodes (all rows stale), for a module that still exists and for one that
+    has been removed: no traceback, the skipped count on stderr, 'No traces found', exit status 0, no file touched."""
+    stale = [i for i, k in enumerate(KINDS) if not k[2]]
+    n = 1 + t.take(2)
+    sel = [stale[t.take(len(stale))] for _ in range(n)]
+    target = (M, "vfix.gone")[t.take(2)]
+    rows = [KINDS[i][1] for i in sel]
+    if target != M:
+        rows = [CallTraceRow(target, r.qualname, r.arg_types, r.return_type, r.yield_type) for r in rows]
+    out, err = Sink(), Sink()
+    CFG.CONFIG.store.rows = list(rows)
+    CFG.CONFIG.k = 0
+    v = bool(verbose)
+    import vfix.funcs as _F
+    before = open(_F.__file__).read()
+    try:
+        rc = cli.main((["-v"] if v else []) + ["-c", "vfix.cfg:CONFIG", "apply", target], out, err)
+    except Exception as e:  # noqa: BLE001
+        return check(False, lambda: f"apply {target} with rows {[KINDS[i][0] for i in sel]}: command failed with {type(e).__name__}: {e}")
+    if open(_F.__file__).read() != before:
+        return check(False, "apply rewrote the source file although nothing decoded")
+    e = err.getvalue()
+    ok = rc == 0 and "No traces found" in e and not out.getvalue().strip()
+    if v:
+        ok = ok and e.count("WARNING: Failed decoding trace") == n
+    else:
+        ok = ok and e.startswith(f"{n} traces failed to decode")
+    return check(ok, lambda: f"apply {target} with rows {[KINDS[i][0] for i in sel]} (verbose={v}): exit {rc}, stdout {out.getvalue()!r}, stderr {e!r}")
+
+
+tape_harness("apply_nothing", [("t", 4)], {"verbose": "bool"}, apply_nothing_body, globals())
 tape_harness("stale_quick", [("t", 3)], {"verbose": "bool"}, lambda t, verbose: stale_body(t, verbose, 3, QUICK_KINDS), globals())
 tape_harness("stale_full3", [("t", 3)], {"verbose": "bool"}, lambda t, verbose: stale_body(t, verbose, 3), globals())
 tape_harness("stale_full4", [("t", 4)], {"verbose": "bool"}, lambda t, verbose: stale_body(t, verbose, 4), globals())
@@ -145,6 +179,10 @@ _CFG = {"stale_quick": (3, QUICK_KINDS), "stale_full3": (3, None), "stale_full4"
 
 
 def shards(name, prefix=2):
+    if name == "apply_nothing":
+        from engine.verdicts import enumerate_prefixes
+
+        return [{f"t{j}": v for j, v in enumerate(p)} for p in enumerate_prefixes(lambda t: apply_nothing_body(t, False), 2)]
     n, kinds = _CFG[name]
     kinds = kinds if kinds is not None else tuple(range(len(KINDS)))
     p = min(prefix, n)
@@ -155,6 +193,8 @@ def shards(name, prefix=2):
 
 
 def describe(name, args):
+    if name == "apply_nothing":
+        return dict(args)
     n, kinds = _CFG[name]
     kinds = kinds if kinds is not None else tuple(range(len(KINDS)))
     sel = [kinds[min(max(args.get(f"t{j}", 0), 0), len(kinds) - 1)] for j in range(n)]
